@@ -52,10 +52,13 @@ TRACKING_SOCKET_EVENTS_TIMEOUT = 1
 
 class Config(dict):
     def __init__(self, defaults=None):
-        if not defaults.get("TRANSPORT_TYPE"):
-            defaults["TRANSPORT_TYPE"] = "TCP"
+        #: TCP is the default transport when none is configured. The caller's
+        #: dictionary is left untouched and a configured value (even an 
+        #: invalid one) is never replaced: it gets validated later on.
+        defaults = dict(defaults or {})
+        defaults.setdefault("TRANSPORT_TYPE", "TCP")
 
-        dict.__init__(self, defaults or {})
+        dict.__init__(self, defaults)
 
 
 class DiameterLogging(object):
